@@ -37,6 +37,7 @@ from liquid2.exceptions import LiquidTypeError
 from liquid2.exceptions import UnknownFilterError
 from liquid2.expression import Expression
 from liquid2.limits import to_int
+from liquid2.unescape import quote_string
 from liquid2.unescape import unescape
 
 if TYPE_CHECKING:
@@ -208,6 +209,9 @@ class StringLiteral(Literal[str]):
     def __init__(self, token: TokenT, value: str):
         super().__init__(token, value)
 
+    def __str__(self) -> str:
+        return quote_string(self.value)
+
     def __eq__(self, other: object) -> bool:
         return isinstance(other, StringLiteral) and self.value == other.value
 
@@ -241,6 +245,14 @@ class FloatLiteral(Literal[float]):
 
     def __init__(self, token: TokenT, value: float):
         super().__init__(token, value)
+
+    def __str__(self) -> str:
+        rv = repr(self.value)
+        if "." not in rv and "e" in rv:
+            # `1e+16` would be scanned as an integer literal.
+            mantissa, exponent = rv.split("e", 1)
+            return f"{mantissa}.0e{exponent}"
+        return rv
 
     def __eq__(self, other: object) -> bool:
         return isinstance(other, FloatLiteral) and self.value == other.value
@@ -382,12 +394,13 @@ class TemplateString(Expression):
         return isinstance(other, TemplateString) and self.template == other.template
 
     def __str__(self) -> str:
-        return repr(
-            "".join(
-                e.value if isinstance(e, StringLiteral) else f"${{{e}}}"
-                for e in self.template
-            )
+        text = "".join(
+            quote_string(e.value, delimit=False)
+            if isinstance(e, StringLiteral)
+            else f"${{{e}}}"
+            for e in self.template
         )
+        return f"'{text}'"
 
     def __hash__(self) -> int:
         return hash(tuple(self.template))
@@ -526,7 +539,7 @@ class Path(Expression):
                 if RE_PROPERTY.fullmatch(segment):
                     buf.append(f".{segment}")
                 else:
-                    buf.append(f"[{segment!r}]")
+                    buf.append(f"[{quote_string(segment)}]")
             else:
                 buf.append(f"[{segment}]")
         return "".join(buf)
